@@ -168,9 +168,7 @@ def _leaky_relu_jvp_rule(
     primals: tuple[ArrayLike, ...], tangents: tuple[ArrayLike, ...], **params: object
 ) -> tuple[ArrayLike, ArrayLike]:
     slope_param = params.get("negative_slope", 0.01)
-    negative_slope = (
-        float(slope_param) if isinstance(slope_param, (int, float)) else 0.01
-    )
+    negative_slope = float(slope_param)
 
     (x,) = primals
     (x_dot,) = tangents
